@@ -3,6 +3,10 @@ package main
 import (
 	"fmt"
 	"go/ast"
+	"go/token"
+	"os"
+	"path/filepath"
+	"regexp"
 	"strings"
 )
 
@@ -79,7 +83,444 @@ func init() {
 		} else {
 			sb.WriteString(untranslatable("maxOpLen") + "\n")
 		}
+		c19EmitOpsDesc(c, &sb, file)
+		c19EmitGlue(c, &sb)
+		c19EmitDocs(c, &sb)
 		sb.WriteString("end Rare.Gen.C19\n")
 		return sb.String()
 	})
+}
+
+// ---------------------------------------------------------------------------------------------
+// Round 4: WHAT every entry of `ops` / `uniOps` computes (not only its key), the source of the
+// `{! …}` glue (funcsMath.go) statement by statement, and the operator lists / examples / number
+// formats of docs/usage/math.md.
+
+func c19Norm(c *Ctx, n ast.Node) string {
+	var keep []string
+	for _, l := range strings.Split(c.Print(n), "\n") {
+		if !strings.HasPrefix(strings.TrimSpace(l), "//") { // a doc comment printed with a declaration
+			keep = append(keep, l)
+		}
+	}
+	return strings.Join(strings.Fields(strings.Join(keep, "\n")), "")
+}
+
+func c19IsIdent(e ast.Expr, name string) bool {
+	id, ok := e.(*ast.Ident)
+	return ok && id.Name == name
+}
+
+// call1(e, "int64") = the single argument of the call `int64(arg)`
+func c19Call1(e ast.Expr, fn string) (ast.Expr, bool) {
+	ce, ok := e.(*ast.CallExpr)
+	if !ok || len(ce.Args) != 1 || !c19IsIdent(ce.Fun, fn) {
+		return nil, false
+	}
+	return ce.Args[0], true
+}
+
+func c19MathSel(e ast.Expr) (string, bool) {
+	se, ok := e.(*ast.SelectorExpr)
+	if !ok || !c19IsIdent(se.X, "math") {
+		return "", false
+	}
+	return se.Sel.Name, true
+}
+
+func c19ParamNames(fl *ast.FuncLit) []string {
+	var out []string
+	for _, f := range fl.Type.Params.List {
+		for _, n := range f.Names {
+			out = append(out, n.Name)
+		}
+	}
+	return out
+}
+
+func c19SingleReturn(st ast.Stmt) (ast.Expr, bool) {
+	rs, ok := st.(*ast.ReturnStmt)
+	if !ok || len(rs.Results) != 1 {
+		return nil, false
+	}
+	return rs.Results[0], true
+}
+
+// (kind, op, guard) of one entry of `ops`:
+//
+//	math.Pow                                               fn    Pow
+//	return left + right                                    arith +
+//	return conditionalOp(left < right)                     cmp   <
+//	return conditionalOp(truthy(left) && truthy(right))    logic &&
+//	return float64(int64(left) & int64(right))             int   &
+//	r := int64(right); if r == 0 { return math.NaN() }; return float64(int64(left) % r)
+//	                                                       int   %   ==0
+//
+// Operands must appear in the order (left, right); anything else is kind "?" with the source text.
+func c19DescribeBin(c *Ctx, e ast.Expr) (kind, op, guard string) {
+	unknown := func() (string, string, string) { return "?", c19Norm(c, e), "" }
+	if name, ok := c19MathSel(e); ok {
+		return "fn", name, ""
+	}
+	fl, ok := e.(*ast.FuncLit)
+	if !ok {
+		return unknown()
+	}
+	ps := c19ParamNames(fl)
+	if len(ps) != 2 {
+		return unknown()
+	}
+	l, r := ps[0], ps[1]
+	body := fl.Body.List
+	intOp := func(e ast.Expr, rname string) (string, bool) { // float64(int64(l) OP <int64(r) | rname>)
+		inner, ok := c19Call1(e, "float64")
+		if !ok {
+			return "", false
+		}
+		be, ok := inner.(*ast.BinaryExpr)
+		if !ok {
+			return "", false
+		}
+		x, ok := c19Call1(be.X, "int64")
+		if !ok || !c19IsIdent(x, l) {
+			return "", false
+		}
+		if rname != "" {
+			if !c19IsIdent(be.Y, rname) {
+				return "", false
+			}
+		} else if y, ok := c19Call1(be.Y, "int64"); !ok || !c19IsIdent(y, r) {
+			return "", false
+		}
+		return be.Op.String(), true
+	}
+	switch len(body) {
+	case 1:
+		res, ok := c19SingleReturn(body[0])
+		if !ok {
+			return unknown()
+		}
+		if be, ok := res.(*ast.BinaryExpr); ok && c19IsIdent(be.X, l) && c19IsIdent(be.Y, r) {
+			switch be.Op {
+			case token.ADD, token.SUB, token.MUL, token.QUO:
+				return "arith", be.Op.String(), ""
+			}
+			return unknown()
+		}
+		if arg, ok := c19Call1(res, "conditionalOp"); ok {
+			be, ok := arg.(*ast.BinaryExpr)
+			if !ok {
+				return unknown()
+			}
+			if c19IsIdent(be.X, l) && c19IsIdent(be.Y, r) {
+				switch be.Op {
+				case token.LSS, token.LEQ, token.GTR, token.GEQ, token.EQL, token.NEQ:
+					return "cmp", be.Op.String(), ""
+				}
+				return unknown()
+			}
+			tx, ok1 := c19Call1(be.X, "truthy")
+			ty, ok2 := c19Call1(be.Y, "truthy")
+			if ok1 && ok2 && c19IsIdent(tx, l) && c19IsIdent(ty, r) && (be.Op == token.LAND || be.Op == token.LOR) {
+				return "logic", be.Op.String(), ""
+			}
+			return unknown()
+		}
+		if o, ok := intOp(res, ""); ok {
+			return "int", o, ""
+		}
+	case 3:
+		as, ok := body[0].(*ast.AssignStmt)
+		if !ok || as.Tok != token.DEFINE || len(as.Lhs) != 1 || len(as.Rhs) != 1 {
+			return unknown()
+		}
+		v, ok := as.Lhs[0].(*ast.Ident)
+		if !ok {
+			return unknown()
+		}
+		if a, ok := c19Call1(as.Rhs[0], "int64"); !ok || !c19IsIdent(a, r) {
+			return unknown()
+		}
+		is, ok := body[1].(*ast.IfStmt)
+		if !ok || is.Init != nil || is.Else != nil || len(is.Body.List) != 1 {
+			return unknown()
+		}
+		cond, ok := is.Cond.(*ast.BinaryExpr)
+		if !ok || !c19IsIdent(cond.X, v.Name) {
+			return unknown()
+		}
+		lit, ok := cond.Y.(*ast.BasicLit)
+		if !ok {
+			return unknown()
+		}
+		ret, ok := c19SingleReturn(is.Body.List[0])
+		if !ok || c19Norm(c, ret) != "math.NaN()" {
+			return unknown()
+		}
+		res, ok := c19SingleReturn(body[2])
+		if !ok {
+			return unknown()
+		}
+		if o, ok := intOp(res, v.Name); ok {
+			return "int", o, cond.Op.String() + lit.Value
+		}
+	}
+	return unknown()
+}
+
+// (kind, name) of one entry of `uniOps`: `fn X` for math.X, `neg` for `return -f`,
+// `not` for `return conditionalOp(!truthy(f))`.
+func c19DescribeUn(c *Ctx, e ast.Expr) (kind, name string) {
+	if n, ok := c19MathSel(e); ok {
+		return "fn", n
+	}
+	fl, ok := e.(*ast.FuncLit)
+	if ok {
+		ps := c19ParamNames(fl)
+		if len(ps) == 1 && len(fl.Body.List) == 1 {
+			if res, ok := c19SingleReturn(fl.Body.List[0]); ok {
+				if ue, ok := res.(*ast.UnaryExpr); ok && ue.Op == token.SUB && c19IsIdent(ue.X, ps[0]) {
+					return "neg", ""
+				}
+				if arg, ok := c19Call1(res, "conditionalOp"); ok {
+					if ue, ok := arg.(*ast.UnaryExpr); ok && ue.Op == token.NOT {
+						if t, ok := c19Call1(ue.X, "truthy"); ok && c19IsIdent(t, ps[0]) {
+							return "not", ""
+						}
+					}
+				}
+			}
+		}
+	}
+	return "?", c19Norm(c, e)
+}
+
+func c19EmitOpsDesc(c *Ctx, sb *strings.Builder, file string) {
+	type ent struct{ key, kind, op, guard string }
+	collect := func(name string, bin bool) ([]ent, bool) {
+		cl, ok := c.Var(file, name).(*ast.CompositeLit)
+		if !ok {
+			return nil, false
+		}
+		var out []ent
+		for _, el := range cl.Elts {
+			kv, ok := el.(*ast.KeyValueExpr)
+			if !ok {
+				return nil, false
+			}
+			k, ok := StringLit(kv.Key)
+			if !ok {
+				return nil, false
+			}
+			if bin {
+				kind, op, guard := c19DescribeBin(c, kv.Value)
+				out = append(out, ent{k, kind, op, guard})
+			} else {
+				kind, op := c19DescribeUn(c, kv.Value)
+				out = append(out, ent{k, kind, op, ""})
+			}
+		}
+		// sorted by key, like opKeys / uniKeys
+		for i := 1; i < len(out); i++ {
+			for j := i; j > 0 && out[j-1].key > out[j].key; j-- {
+				out[j-1], out[j] = out[j], out[j-1]
+			}
+		}
+		return out, len(out) > 0
+	}
+	if es, ok := collect("ops", true); ok {
+		var parts, doc []string
+		for _, e := range es {
+			parts = append(parts, fmt.Sprintf("(%s, %s, %s, %s)", c19Bytes(e.key), leanStr(e.kind), leanStr(e.op), leanStr(e.guard)))
+			doc = append(doc, e.key)
+		}
+		fmt.Fprintf(sb, "/-- what every entry of `ops` computes: (key, kind, Go operator / math function, guard that answers NaN); keys %s -/\ndef opsDesc : List (List UInt8 × String × String × String) :=\n  [%s]\n\n",
+			strings.Join(doc, " "), strings.Join(parts, ",\n   "))
+	} else {
+		sb.WriteString(untranslatable("opsDesc") + "\n")
+	}
+	if es, ok := collect("uniOps", false); ok {
+		var parts []string
+		for _, e := range es {
+			parts = append(parts, fmt.Sprintf("(%s, %s, %s)", c19Bytes(e.key), leanStr(e.kind), leanStr(e.op)))
+		}
+		fmt.Fprintf(sb, "/-- what every entry of `uniOps` computes: (key, kind, math function) -/\ndef uniDesc : List (List UInt8 × String × String) :=\n  [%s]\n\n", strings.Join(parts, ",\n   "))
+	} else {
+		sb.WriteString(untranslatable("uniDesc") + "\n")
+	}
+	// truthy: `return val != 0.0`; conditionalOp: `if truth { return 1.0 }; return 0.0`
+	okT := false
+	if fd := c.Func(file, "truthy"); fd != nil && len(fd.Body.List) == 1 && len(fd.Type.Params.List) == 1 && len(fd.Type.Params.List[0].Names) == 1 {
+		if res, ok := c19SingleReturn(fd.Body.List[0]); ok {
+			if be, ok := res.(*ast.BinaryExpr); ok && c19IsIdent(be.X, fd.Type.Params.List[0].Names[0].Name) {
+				if lit, ok := be.Y.(*ast.BasicLit); ok {
+					fmt.Fprintf(sb, "/-- `truthy(val)`: `val <op> <literal>` -/\ndef truthyDesc : String × String := (%s, %s)\n\n", leanStr(be.Op.String()), leanStr(lit.Value))
+					okT = true
+				}
+			}
+		}
+	}
+	if !okT {
+		sb.WriteString(untranslatable("truthyDesc") + "\n")
+	}
+	okC := false
+	if fd := c.Func(file, "conditionalOp"); fd != nil && len(fd.Body.List) == 2 && len(fd.Type.Params.List) == 1 && len(fd.Type.Params.List[0].Names) == 1 {
+		if is, ok := fd.Body.List[0].(*ast.IfStmt); ok && is.Init == nil && is.Else == nil && len(is.Body.List) == 1 &&
+			c19IsIdent(is.Cond, fd.Type.Params.List[0].Names[0].Name) {
+			t, ok1 := c19SingleReturn(is.Body.List[0])
+			f, ok2 := c19SingleReturn(fd.Body.List[1])
+			if ok1 && ok2 {
+				tl, ok3 := t.(*ast.BasicLit)
+				fl, ok4 := f.(*ast.BasicLit)
+				if ok3 && ok4 {
+					fmt.Fprintf(sb, "/-- `conditionalOp(truth)`: the value for true and the value for false -/\ndef condDesc : String × String := (%s, %s)\n\n", leanStr(tl.Value), leanStr(fl.Value))
+					okC = true
+				}
+			}
+		}
+	}
+	if !okC {
+		sb.WriteString(untranslatable("condDesc") + "\n")
+	}
+}
+
+// statements of a block, whitespace-free source text each
+func c19Stmts(c *Ctx, b *ast.BlockStmt) []string {
+	var out []string
+	for _, st := range b.List {
+		out = append(out, c19Norm(c, st))
+	}
+	return out
+}
+
+func c19EmitGlue(c *Ctx, sb *strings.Builder) {
+	const file = "pkg/expressions/stdlib/funcsMath.go"
+	emit := func(lean, doc string, l []string, ok bool) {
+		if ok && len(l) > 0 {
+			fmt.Fprintf(sb, "/-- %s -/\ndef %s : List String :=\n  %s\n\n", doc, lean, leanStrList(l))
+		} else {
+			sb.WriteString(untranslatable(lean) + "\n")
+		}
+	}
+	for _, m := range []struct{ goName, lean string }{{"keyBuilderContextWrapper.GetMatch", "wrapperGetMatch"}, {"keyBuilderContextWrapper.GetKey", "wrapperGetKey"}} {
+		fd := c.Func(file, m.goName)
+		if fd != nil {
+			emit(m.lean, "`"+m.goName+"`, statement by statement", c19Stmts(c, fd.Body), true)
+		} else {
+			emit(m.lean, "", nil, false)
+		}
+	}
+	// the closure kfMath returns (the last statement of kfMath: `return func(ctx …) string { … }, nil`)
+	var closure, head []string
+	okCl := false
+	if fd := c.Func(file, "kfMath"); fd != nil && len(fd.Body.List) > 0 {
+		n := len(fd.Body.List)
+		if rs, ok := fd.Body.List[n-1].(*ast.ReturnStmt); ok && len(rs.Results) == 2 {
+			if fl, ok := rs.Results[0].(*ast.FuncLit); ok {
+				closure = c19Stmts(c, fl.Body)
+				okCl = true
+			}
+		}
+		for _, st := range fd.Body.List[:n-1] {
+			head = append(head, c19Norm(c, st))
+		}
+	}
+	emit("kfMathHead", "`kfMath` before the closure (argument collapse, Compile, pool), statement by statement", head, okCl)
+	emit("kfMathClosure", "the stage `kfMath` returns, statement by statement", closure, okCl)
+	// the strconv calls of compileToken (literal reading), in source order
+	var calls []string
+	if fd := c.Func("pkg/expressions/stdmath/parser.go", "compileToken"); fd != nil {
+		ast.Inspect(fd, func(n ast.Node) bool {
+			if ce, ok := n.(*ast.CallExpr); ok {
+				if se, ok := ce.Fun.(*ast.SelectorExpr); ok && c19IsIdent(se.X, "strconv") {
+					calls = append(calls, c19Norm(c, ce))
+				}
+			}
+			return true
+		})
+	}
+	emit("compileTokenStrconv", "the `strconv` calls of `compileToken`, in source order", calls, len(calls) > 0)
+	if e := c.Var("pkg/expressions/stdmath/parser.go", "validVariableRegex"); e != nil {
+		if ce, ok := e.(*ast.CallExpr); ok && len(ce.Args) == 1 {
+			if s, ok := StringLit(ce.Args[0]); ok {
+				fmt.Fprintf(sb, "/-- `validVariableRegex` -/\ndef validVariableRegex : String := %s\n\n", leanStr(s))
+				return
+			}
+		}
+	}
+	sb.WriteString(untranslatable("validVariableRegex") + "\n")
+}
+
+var c19Span = regexp.MustCompile("`([^`]*)`")
+
+// docs/usage/math.md: the operator tables (every back-quoted span of the rows under `### Binary` /
+// `### Unary`, split at blanks), the examples `{! f} => v` with the binding of the sentence above
+// them (`If `x=4``), and the example column of the number-format table.
+func c19EmitDocs(c *Ctx, sb *strings.Builder) {
+	raw, err := os.ReadFile(filepath.Join(c.Repo, "docs/usage/math.md"))
+	if err != nil {
+		sb.WriteString(untranslatable("docBinaryOps") + "\n")
+		return
+	}
+	section := ""
+	var bin, un, formats [][2]string // formats: (prefix, example)
+	var binOps, unOps []string
+	var examples [][2]string
+	bindName, bindVal := "", ""
+	exRe := regexp.MustCompile(`^\{!\s*(.*?)\s*\}\s*=>\s*(\S+)\s*$`)
+	bindRe := regexp.MustCompile("If `([A-Za-z][A-Za-z0-9]*)=([^`]*)`")
+	for _, line := range strings.Split(string(raw), "\n") {
+		t := strings.TrimSpace(line)
+		if strings.HasPrefix(t, "#") {
+			section = strings.TrimSpace(strings.TrimLeft(t, "#"))
+			continue
+		}
+		if m := bindRe.FindStringSubmatch(t); m != nil {
+			bindName, bindVal = m[1], m[2]
+		}
+		if m := exRe.FindStringSubmatch(t); m != nil {
+			examples = append(examples, [2]string{m[1], m[2]})
+		}
+		if !strings.HasPrefix(t, "|") || strings.HasPrefix(t, "|--") || strings.HasPrefix(t, "| Type") || strings.HasPrefix(t, "| Format") {
+			continue
+		}
+		spans := c19Span.FindAllStringSubmatch(t, -1)
+		switch section {
+		case "Binary":
+			for _, sp := range spans {
+				binOps = append(binOps, strings.Fields(sp[1])...)
+			}
+		case "Unary":
+			for _, sp := range spans {
+				unOps = append(unOps, strings.Fields(sp[1])...)
+			}
+		case "Formats":
+			cells := strings.Split(strings.Trim(t, "|"), "|")
+			if len(cells) == 3 {
+				pre := strings.Trim(strings.TrimSpace(cells[1]), "`")
+				if pre == "-" {
+					pre = ""
+				}
+				formats = append(formats, [2]string{pre, strings.Trim(strings.TrimSpace(cells[2]), "`")})
+			}
+		}
+	}
+	_, _ = bin, un
+	if len(binOps) == 0 || len(unOps) == 0 || len(examples) == 0 || len(formats) == 0 || bindName == "" {
+		sb.WriteString(untranslatable("docBinaryOps") + "\n")
+		return
+	}
+	fmt.Fprintf(sb, "/-- docs/usage/math.md, table `Binary`: %s -/\ndef docBinaryOps : List (List UInt8) := %s\n\n", strings.Join(binOps, " "), c19ByteList(binOps))
+	fmt.Fprintf(sb, "/-- docs/usage/math.md, table `Unary`: %s -/\ndef docUnaryOps : List (List UInt8) := %s\n\n", strings.Join(unOps, " "), c19ByteList(unOps))
+	var ex []string
+	for _, e := range examples {
+		ex = append(ex, fmt.Sprintf("(%s, %s)", c19Bytes(e[0]), c19Bytes(e[1])))
+	}
+	fmt.Fprintf(sb, "/-- docs/usage/math.md, `## Examples`: (formula, printed value) with `%s=%s` -/\ndef docExamples : List (List UInt8 × List UInt8) :=\n  [%s]\n\n", bindName, bindVal, strings.Join(ex, ",\n   "))
+	fmt.Fprintf(sb, "/-- the binding of the examples -/\ndef docBinding : List UInt8 × List UInt8 := (%s, %s)\n\n", c19Bytes(bindName), c19Bytes(bindVal))
+	var fm []string
+	for _, f := range formats {
+		fm = append(fm, fmt.Sprintf("(%s, %s)", c19Bytes(f[0]), c19Bytes(f[1])))
+	}
+	fmt.Fprintf(sb, "/-- docs/usage/math.md, `### Formats`: (prefix, example) -/\ndef docFormats : List (List UInt8 × List UInt8) := [%s]\n\n", strings.Join(fm, ", "))
 }
